@@ -419,6 +419,14 @@ func c08Iterables(r *core.Rng) []c08Iter {
 	// an operator expression whose right operand is a call: the { after it opens the loop body
 	its = append(its, mk("sum-ending-in-a-call", "ints2 + len(strs3)", []string{"10", "20", "3"}, []string{"10", "20", "3"}))
 	its = append(its, mk("index-by-a-call", "msl2[up(\"k\")]", []string{"a", "b"}, []string{`"a"`, `"b"`}))
+	// paths that end in a call, after an index, a member, another call: the { after them opens the loop body
+	tg, tgs := []string{"t0", "t1"}, []string{`"t0"`, `"t1"`}
+	its = append(its, mk("method-call", "strct.Strs()", tg, tgs))
+	its = append(its, mk("method-call-after-an-index", "teams[0].Strs()", tg, tgs))
+	its = append(its, mk("method-call-after-a-map-index", "tmap[\"k\"].Strs()", tg, tgs))
+	its = append(its, mk("method-call-after-index-and-call", "teams[0].Self().Strs()", tg, tgs))
+	its = append(its, mk("method-call-after-a-nested-index", "tgrid[0][0].Strs()", tg, tgs))
+	its = append(its, mk("member-after-an-index", "teams[0].Tags", tg, tgs))
 	its = append(its, mk("custom-iterator", "citer", []string{"1", "2", "3"}, []string{"1", "2", "3"}))
 	// an iterator whose elements include a nil slice: an element like any other, not the end
 	tn := mk("custom-iterator-yielding-a-nil-slice", "tniter", []string{"ab", "", "c"}, nil)
@@ -478,6 +486,9 @@ func c08Ctx() *plush.Context {
 	ctx.Set("mis2", map[int]string{1: "one", 2: "two"})
 	ctx.Set("mempty", map[string]int{})
 	ctx.Set("strct", newT("s"))
+	ctx.Set("teams", []T{newT("a"), newT("b")})
+	ctx.Set("tmap", map[string]T{"k": newT("k")})
+	ctx.Set("tgrid", [][]T{{newT("g")}})
 	ctx.Set("fnval", func() int { return 1 })
 	ctx.Set("cap", func(h plush.HelperContext) (template.HTML, error) {
 		s, err := h.Block()
